@@ -136,6 +136,17 @@ def run(ctx):
                           {'variant': variant, 'enforce_new_defaults': en, 'why': why, 'files_present': layers, 'trace': tr})
         if len(ctx.samples) < 4:
             ctx.sample({'variant': variant, 'enforce_new_defaults': en, 'trace': traces[0]})
+    # ---- "a missing policy file or missing directories are simply skipped; names defined nowhere
+    # stay undefined, registered defaults apply" also when the files that defined them have gone
+    for variant, en in (('plain', True), ('renamed', False), ('split', True)):
+        hs = [[('write', 'd1/a', 'new'), ('load', False), ('delete', 'd1/a'), ('load', False)],
+              [('write', 'd2/a', 'both'), ('ignored', 'd1/.hidden'), ('load', False), ('delete', 'd2/a'), ('load', False), ('load', False)],
+              [('write', 'main', 'new'), ('load', False), ('delete', 'main'), ('load', False)]]
+        traces = [lc.run_history(rng, variant, en, h) for h in hs]
+        n += len(traces)
+        for idx, why, step in lc.judge_traces(ctx, variant, en, traces):
+            ctx.violation('layering-after-removal:%s' % why, 'after the files that defined a policy were removed, the effective policy is not the layering of what is left: ' + why,
+                          {'variant': variant, 'enforce_new_defaults': en, 'why': why, 'trace': traces[idx][:step]})
     # ---- which file is the policy file
     rows = list(pick_rows())
     cases = [run_pick(r) for r in rows]
